@@ -43,7 +43,7 @@ Definition case_ok (c : case) : Prop :=
   | CGuard _ _ ans _ => ans_ok ans
   | CDial _ _ _ _ _ ans _ _ => ans_ok ans
   | CRedirect _ _ _ _ => False          (* not covered by the link theorem *)
-  | CEndToEnd _ _ _ _ _ _ => False
+  | CEndToEnd _ _ _ _ _ _ _ => False
   end.
 
 Theorem check_implies_holds c : case_ok c -> check_case c = true -> holds_on c = true.
